@@ -489,6 +489,8 @@ package rosmar
 //@ spec plainJSON(p) = !isnull(p.marshaled) && isnull(p.raw) && isnull(p.parsed)
 //@
 //@ fn (*Collection).writeWithXattrs
+//@   modular
+//@   flag modifies=db
 //@   nullable ifCas exp
 //@   variant keepbody val=nil
 //@   variant delbody  val=&{raw:nil,marshaled:nil,parsed:nil}
@@ -531,3 +533,72 @@ package rosmar
 //@   ensures [C20:wwx.unlocked]           any: nolocks()
 //@ fn removeUserXattrs
 //@   loop 1 invariant [C05,C07:removeUserXattrs.loop] forall k: Str :: it[k] == (if visited[k] && !issys(k) then NOX else it0[k])
+//@
+//@ fn (*Collection).SetXattrs
+//@   requires DocInv(doc(c.id, key)) && HlcInv(doc(c.id, key)) && IntOK(doc(c.id, key))
+//@   loop 1 invariant [C07:SetXattrs.loop] true
+//@   ensures [C07:SetXattrs.delegates] count("call:Collection.writeWithXattrs") == 1 && callarg("Collection.writeWithXattrs", 1) == key && callarg("Collection.writeWithXattrs", 2) == nil && callarg("Collection.writeWithXattrs", 4) == nil && callarg("Collection.writeWithXattrs", 5) == nil && callarg("Collection.writeWithXattrs", 0) == c
+//@   ensures [C07:SetXattrs.plain-options] !callarg("Collection.writeWithXattrs", 6).insertDoc && !callarg("Collection.writeWithXattrs", 6).requireExistingDoc && !callarg("Collection.writeWithXattrs", 6).deleteBody && !callarg("Collection.writeWithXattrs", 6).preserveXattr && !callarg("Collection.writeWithXattrs", 6).insertXattr
+//@   ensures [C07:SetXattrs.result] result0 == callret("Collection.writeWithXattrs", 0) && result1 == callret("Collection.writeWithXattrs", 1)
+//@
+//@ fn (*Collection).RemoveXattrs
+//@   requires DocInv(doc(c.id, key)) && HlcInv(doc(c.id, key)) && IntOK(doc(c.id, key))
+//@   loop 1 invariant [C07:RemoveXattrs.loop] true
+//@   ensures [C02,C07:RemoveXattrs.delegates] count("call:Collection.writeWithXattrs") == 1 && callarg("Collection.writeWithXattrs", 1) == key && callarg("Collection.writeWithXattrs", 2) == nil && *callarg("Collection.writeWithXattrs", 4) == cas && callarg("Collection.writeWithXattrs", 5) == nil && callarg("Collection.writeWithXattrs", 0) == c
+//@   ensures [C07:RemoveXattrs.plain-options] !callarg("Collection.writeWithXattrs", 6).insertDoc && !callarg("Collection.writeWithXattrs", 6).requireExistingDoc && !callarg("Collection.writeWithXattrs", 6).deleteBody && !callarg("Collection.writeWithXattrs", 6).preserveXattr && !callarg("Collection.writeWithXattrs", 6).insertXattr
+//@   ensures [C07:RemoveXattrs.result] result == callret("Collection.writeWithXattrs", 1)
+//@
+//@ fn (*Collection).UpdateXattrs
+//@   requires DocInv(doc(c.id, key)) && HlcInv(doc(c.id, key)) && IntOK(doc(c.id, key))
+//@   nullable opts
+//@   loop 1 invariant [C07:UpdateXattrs.loop] true
+//@   ensures [C02,C07,C14:UpdateXattrs.delegates] count("call:Collection.writeWithXattrs") == 1 && callarg("Collection.writeWithXattrs", 1) == key && callarg("Collection.writeWithXattrs", 2) == nil && *callarg("Collection.writeWithXattrs", 4) == cas && *callarg("Collection.writeWithXattrs", 5) == exp && callarg("Collection.writeWithXattrs", 0) == c && callarg("Collection.writeWithXattrs", 7) == opts
+//@   ensures [C07:UpdateXattrs.plain-options] !callarg("Collection.writeWithXattrs", 6).insertDoc && !callarg("Collection.writeWithXattrs", 6).requireExistingDoc && !callarg("Collection.writeWithXattrs", 6).deleteBody && !callarg("Collection.writeWithXattrs", 6).preserveXattr && !callarg("Collection.writeWithXattrs", 6).insertXattr
+//@   ensures [C07:UpdateXattrs.result] casOut == callret("Collection.writeWithXattrs", 0) && err == callret("Collection.writeWithXattrs", 1)
+//@
+//@ fn (*Collection).WriteWithXattrs
+//@   requires DocInv(doc(c.id, k)) && HlcInv(doc(c.id, k)) && IntOK(doc(c.id, k))
+//@   nullable opts
+//@   let called = count("call:Collection.writeWithXattrs") == 1
+//@   loop 1 invariant [C07:WriteWithXattrs.loop1] true
+//@   loop 2 invariant [C07:WriteWithXattrs.loop2] true
+//@   ensures [C07:WriteWithXattrs.at-most-once] count("call:Collection.writeWithXattrs") <= 1
+//@   ensures [C06:WriteWithXattrs.no-delete-on-insert] cas == 0 && !isnull(xattrsToDelete) ==> !called && err != nil
+//@   ensures [C07:WriteWithXattrs.needs-something] len(value) == 0 && len(xattrsValues) == 0 ==> !called && err != nil
+//@   ensures [C02,C06,C07:WriteWithXattrs.delegates] called ==> callarg("Collection.writeWithXattrs", 1) == k && *callarg("Collection.writeWithXattrs", 4) == cas && callarg("Collection.writeWithXattrs", 0) == c && callarg("Collection.writeWithXattrs", 7) == opts
+//@   ensures [C07:WriteWithXattrs.body-arg] called ==> (isnull(value) <==> callarg("Collection.writeWithXattrs", 2) == nil) && (!isnull(value) ==> callarg("Collection.writeWithXattrs", 2).marshaled == value && isnull(callarg("Collection.writeWithXattrs", 2).raw) && isnull(callarg("Collection.writeWithXattrs", 2).parsed))
+//@   ensures [C07,C14:WriteWithXattrs.expiry-arg] called ==> ((opts != nil && opts.PreserveExpiry) <==> callarg("Collection.writeWithXattrs", 5) == nil) && (callarg("Collection.writeWithXattrs", 5) != nil ==> *callarg("Collection.writeWithXattrs", 5) == exp)
+//@   ensures [C07:WriteWithXattrs.plain-options] called ==> !callarg("Collection.writeWithXattrs", 6).insertDoc && !callarg("Collection.writeWithXattrs", 6).requireExistingDoc && !callarg("Collection.writeWithXattrs", 6).deleteBody && !callarg("Collection.writeWithXattrs", 6).preserveXattr && !callarg("Collection.writeWithXattrs", 6).insertXattr
+//@   ensures [C07:WriteWithXattrs.result] called ==> casOut == callret("Collection.writeWithXattrs", 0) && err == callret("Collection.writeWithXattrs", 1)
+//@
+//@ fn (*Collection).WriteTombstoneWithXattrs
+//@   requires DocInv(doc(c.id, key)) && HlcInv(doc(c.id, key)) && IntOK(doc(c.id, key))
+//@   nullable opts
+//@   let called = count("call:Collection.writeWithXattrs") == 1
+//@   loop 1 invariant [C05:WriteTombstone.loop1] true
+//@   loop 2 invariant [C05:WriteTombstone.loop2] true
+//@   ensures [C05:WriteTombstone.at-most-once] count("call:Collection.writeWithXattrs") <= 1
+//@   ensures [C05:WriteTombstone.needs-xattrs] len(xv) == 0 ==> !called && err != nil
+//@   ensures [C06:WriteTombstone.no-delete-on-insert] cas == 0 && !isnull(xattrsToDelete) ==> !called && err != nil
+//@   ensures [C02,C05:WriteTombstone.delegates] called ==> callarg("Collection.writeWithXattrs", 1) == key && *callarg("Collection.writeWithXattrs", 4) == cas && *callarg("Collection.writeWithXattrs", 5) == exp && callarg("Collection.writeWithXattrs", 0) == c && callarg("Collection.writeWithXattrs", 7) == opts
+//@   ensures [C05:WriteTombstone.deletes-body] called ==> callarg("Collection.writeWithXattrs", 2) != nil && pnil(*callarg("Collection.writeWithXattrs", 2))
+//@   ensures [C05:WriteTombstone.options] called ==> (callarg("Collection.writeWithXattrs", 6).requireExistingDoc <==> (deleteBody || cas != 0)) && (callarg("Collection.writeWithXattrs", 6).deleteBody <==> deleteBody) && !callarg("Collection.writeWithXattrs", 6).insertDoc && !callarg("Collection.writeWithXattrs", 6).preserveXattr && !callarg("Collection.writeWithXattrs", 6).insertXattr
+//@   ensures [C05:WriteTombstone.result] called ==> casOut == callret("Collection.writeWithXattrs", 0) && err == callret("Collection.writeWithXattrs", 1)
+//@
+//@ fn (*Collection).WriteResurrectionWithXattrs
+//@   requires DocInv(doc(c.id, k)) && HlcInv(doc(c.id, k)) && IntOK(doc(c.id, k))
+//@   nullable opts
+//@   let called = count("call:Collection.writeWithXattrs") == 1
+//@   loop 1 invariant [C06:WriteResurrection.loop] true
+//@   ensures [C06:WriteResurrection.at-most-once] count("call:Collection.writeWithXattrs") <= 1
+//@   ensures [C06:WriteResurrection.needs-body] isnull(value) ==> !called && err != nil
+//@   ensures [C06:WriteResurrection.insert-mode] called ==> callarg("Collection.writeWithXattrs", 6).insertDoc && callarg("Collection.writeWithXattrs", 4) == nil && !callarg("Collection.writeWithXattrs", 6).requireExistingDoc && !callarg("Collection.writeWithXattrs", 6).deleteBody && !callarg("Collection.writeWithXattrs", 6).preserveXattr && !callarg("Collection.writeWithXattrs", 6).insertXattr
+//@   ensures [C06,C07:WriteResurrection.delegates] called ==> callarg("Collection.writeWithXattrs", 1) == k && callarg("Collection.writeWithXattrs", 0) == c && callarg("Collection.writeWithXattrs", 7) == opts && callarg("Collection.writeWithXattrs", 2).marshaled == value && isnull(callarg("Collection.writeWithXattrs", 2).raw) && isnull(callarg("Collection.writeWithXattrs", 2).parsed)
+//@   ensures [C14:WriteResurrection.expiry-arg] called ==> ((opts != nil && opts.PreserveExpiry) <==> callarg("Collection.writeWithXattrs", 5) == nil) && (callarg("Collection.writeWithXattrs", 5) != nil ==> *callarg("Collection.writeWithXattrs", 5) == exp)
+//@   ensures [C06:WriteResurrection.result] called ==> casOut == callret("Collection.writeWithXattrs", 0) && err == callret("Collection.writeWithXattrs", 1)
+//@
+//@ fn (*Collection).UpdateXattrDeleteBody
+//@   requires DocInv(doc(c.id, key)) && HlcInv(doc(c.id, key)) && IntOK(doc(c.id, key))
+//@   nullable opts
+//@   ensures [C02,C05:UpdateXattrDeleteBody.delegates] count("call:Collection.writeWithXattrs") == 1 && callarg("Collection.writeWithXattrs", 1) == key && *callarg("Collection.writeWithXattrs", 4) == cas && *callarg("Collection.writeWithXattrs", 5) == exp && callarg("Collection.writeWithXattrs", 0) == c && callarg("Collection.writeWithXattrs", 7) == opts && pnil(*callarg("Collection.writeWithXattrs", 2))
+//@   ensures [C05:UpdateXattrDeleteBody.result] casOut == callret("Collection.writeWithXattrs", 0) && err == callret("Collection.writeWithXattrs", 1)
